@@ -71,6 +71,8 @@ package m
 //@   invariant 1 reversed [C12]: forall k int :: 0 <= k && k < len(block) ==> block[k] == old(block[len(block)-1-k])
 //@   invariant 1 zeros [C12]: forall k int :: 0 <= k && k < i ==> block[k] == 0
 //@   decreases 1: len(block) - i
+//@   ensures trailing-zeros-counted [C12!]: 0 <= i && i <= len(block) && (forall k int :: 0 <= k && k < i ==> oldheap(block[len(block)-1-k]) == 0) && (i < len(block) ==> oldheap(block[len(block)-1-i]) != 0)
+//@   atexit 1 reversed-and-pulled-to-the-front [C12!]: forall k int :: 0 <= k && k < len(block) ==> block[k] == (k + i < len(block) ? oldheap(block[len(block)-1-k-i]) : 0)
 //@   ensures leading-zeros-removed [C12]: (exists k int :: 0 <= k && k < len(block) && old(block[len(block)-1-k]) != 0) ==> block[0] != 0
 //@   ensures all-zero-stays [C12]: (forall k int :: 0 <= k && k < len(block) ==> old(block[k]) == 0) ==> (forall k int :: 0 <= k && k < len(block) ==> block[k] == 0)
 
